@@ -205,8 +205,7 @@ Definition simple_string (t : bytes) : option bytes :=
 
 (* tryInsertLiteral: Some l = it inserted the literal l and returned nil.
    ovf: strconv.ParseFloat reports a range error for the trimmed text. *)
-Definition try_literal (ovf : bool) (v : bytes) : option lit :=
-  let t := trim_space v in
+Definition try_core (ovf : bool) (t : bytes) : option lit :=
   if fold_eq t kw_true then Some (LBool true)
   else if fold_eq t kw_false then Some (LBool false)
   else
@@ -222,6 +221,7 @@ Definition try_literal (ovf : bool) (v : bytes) : option lit :=
     | Some l => Some l
     | None => option_map LStr (simple_string t)
     end.
+Definition try_literal (ovf : bool) (v : bytes) : option lit := try_core ovf (trim_space v).
 
 (* decodeOldClassAdString *)
 Fixpoint decode_old_string (s : bytes) : option bytes :=
@@ -412,8 +412,7 @@ Definition starts_number (s : bytes) : bool :=
   end.
 
 (* the text is one literal: what the parser reads it as *)
-Definition lex_literal (v : bytes) : option lit :=
-  let s := trim_left v in
+Definition lex_core (s : bytes) : option lit :=
   match s with
   | [] => None
   | c :: r =>
@@ -435,3 +434,4 @@ Definition lex_literal (v : bytes) : option lit :=
       else if is_letter c || beq c 95 then option_map LBool (only_space_after (lex_bool s))
       else None
   end.
+Definition lex_literal (v : bytes) : option lit := lex_core (trim_left v).
